@@ -853,7 +853,15 @@ func (vm *VirtualMachine) Call(
 		}
 		vm.stop()
 	}()
-	return vm.callFunction(vm.initContext(ctx), fn, args)
+	result, err = vm.callFunction(vm.initContext(ctx), fn, args)
+	if err == nil {
+		// A blocking operation that was cut short by the context lets the
+		// function run on; the call must still not report success.
+		if ctxErr := ctx.Err(); ctxErr != nil {
+			return nil, ctxErr
+		}
+	}
+	return result, err
 }
 
 // Calls a compiled function with the given arguments. This is used internally
